@@ -13,6 +13,7 @@ import OcVerif.Driver.RtCancel
 import OcVerif.Driver.RtStop
 import OcVerif.Driver.RtSock
 import OcVerif.Driver.RtConn
+import OcVerif.Driver.RtPrio
 import OcVerif.Driver.Co
 import OcVerif.Driver.Local
 import OcVerif.Driver.Beans
@@ -54,6 +55,7 @@ def dispatch (comp : String) : Option (String → String → Verdict) :=
   | "rtstop" => some Driver.RtStop.drive
   | "rtsock" => some Driver.RtSock.drive
   | "rtconn" => some Driver.RtConn.drive
+  | "rtprio" => some Driver.RtPrio.drive
   | "co" => some Driver.Co.drive
   | "local" => some Driver.Local.drive
   | "beans" => some Driver.Beans.drive
